@@ -801,6 +801,93 @@ def direction_a_usecmap(ck, fut):
     ck.extra["usecmap_behaviours_replayed"] = n
 
 
+# =============================================================================================== A7 collection maps per writing mode
+def umap_history_main():
+    """runs in a FRESH interpreter (the cache under test lives for the life of a process): stdin = JSON list of requests
+    [{coll, mode}], stdout = JSON list of findings.  Every request is made twice over: through the API
+    CMapDB.get_unicode_map(coll, vertical) and through a generated Type0 document (Identity-H / Identity-V font of that
+    collection), and compared with the pickled table of the REQUESTED mode on the CIDs where the two modes differ."""
+    import sys
+    quiet()
+    from pdfminer.cmapdb import CMapDB
+    from ..observe import cidrec
+    from ..realise import fontpdf as fp
+    hist = json.load(sys.stdin)
+    out = []
+    for i, rq in enumerate(hist):
+        coll, vertical = rq["coll"], rq["mode"] == "V"
+        dh, dv = cidrec.cid2unichr(coll, False), cidrec.cid2unichr(coll, True)
+        want = dv if vertical else dh
+        differ = sorted(c for c in set(dh) | set(dv) if dh.get(c) != dv.get(c))
+        same = sorted(c for c in dh if dh.get(c) == dv.get(c))[:40]
+        if not differ:
+            out.append(["machinery", "collection %s has no CID whose H and V targets differ" % coll])
+            continue
+        um = CMapDB.get_unicode_map(coll, vertical)
+        bad = []
+        for c in differ + same:
+            try:
+                t = um.get_unichr(c)
+            except KeyError:
+                t = None
+            if t != want.get(c):
+                bad.append((c, t, want.get(c)))
+        if bad:
+            out.append(["umap-mode:api", "request %d of %s: get_unicode_map(%r, vertical=%s) answers %d of %d CIDs with another map's "
+                        "value, e.g. CID %d -> %r, expected %r" % (i + 1, [(h["coll"], h["mode"]) for h in hist], coll, vertical,
+                                                                   len(bad), len(differ) + len(same), bad[0][0], bad[0][1], bad[0][2])])
+        cids = [c for c in differ if c in want and c < 65536][:6] + same[:2]
+        font, objs = type0_font("Identity-V" if vertical else "Identity-H", ordering=coll.split("-", 1)[1])
+        pdf = lines_doc(font, objs, [b"".join(c.to_bytes(2, "big") for c in cids)])
+        texts = [g[0] for g in fp.chars_of(pdf)[0]]
+        exp = [want.get(c, "(cid:%d)" % c) for c in cids]
+        if texts != exp:
+            out.append(["umap-mode:document", "request %d of %s: a %s font of %s showing CIDs %s reports %r, expected %r"
+                        % (i + 1, [(h["coll"], h["mode"]) for h in hist], "vertical" if vertical else "horizontal", coll, cids, texts, exp)])
+    json.dump(out, sys.stdout)
+
+
+def umap_history_run(hist):
+    import subprocess
+    import sys
+    p = subprocess.run([sys.executable, "-c", "from harness.props.c07 import umap_history_main; umap_history_main()"],
+                       input=json.dumps(hist), capture_output=True, text=True, cwd=os.path.dirname(os.path.dirname(FONT)),
+                       timeout=600)
+    if p.returncode != 0:
+        raise MachineryError("collection-map history worker failed: " + p.stderr[-1500:])
+    return json.loads(p.stdout)
+
+
+def direction_a_umap(ck, fut, tpool):
+    res, emit = fut
+    ck.add_tlc(res, "UMapCache: request histories <= 3 over 2 collections x {H, V}")
+    if not res.ok:
+        return model_violation(ck, res, "UMapCache")
+    require_coverage(res, ["ALoad", "AHit"])
+    hists = [json.loads(line)["h"] for line in open(emit)]
+    os.remove(emit)
+    if len(hists) != res.emitted or not hists:
+        raise MachineryError("UMapCache: emitted %d, read %d" % (res.emitted, len(hists)))
+    for h in hists:
+        for rq in h:
+            if rq["got"] != [rq["coll"], rq["mode"]]:
+                raise MachineryError("UMapCache emitted a history the invariant forbids")
+    top = max(len(h) for h in hists)
+    maximal = [h for h in hists if len(h) == top]       # every shorter history is a prefix of one of these
+    for h, findings in zip(maximal, tpool.map(umap_history_run, maximal)):
+        for key, what in findings:
+            if key == "machinery":
+                raise MachineryError(what)
+            report(ck, key, what, {"kind": "umap", "history": h})
+        ck.case(len(h), ("M", json.dumps([(r["coll"], r["mode"]) for r in h]))
+                if len({(r["coll"], r["mode"]) for r in h if r["coll"] == h[0]["coll"]}) > 1 else None)
+    ck.sample({"collection_map_requests_in_one_process": [(r["coll"], r["mode"]) for r in maximal[len(maximal) // 3]],
+               "model_answers": [r["got"] for r in maximal[len(maximal) // 3]]})
+    ck.replayed += len(hists)
+    ck.extra["collection_map_histories_replayed"] = len(hists)
+    ck.extra["fresh_processes_for_histories"] = len(maximal)
+
+
 # =============================================================================================== B traces
 def cid_traces_of(path):
     from ..observe import cidrec
@@ -950,7 +1037,9 @@ def run(ck):
                "sequence of CMapParse.tla through CMapParser (a subset through documents); non-trivial = defines a mapping. "
                "(iii) every W / W2 array of Widths.tla through get_widths/get_widths2 (a subset of the well-formed ones through "
                "documents); non-trivial = well-formed with an entry. (iv) every Placement behaviour, every CIDSelect font "
-               "dictionary (as a document) and every UseCMap behaviour. B: one trace per distinct composite font of the samples.")
+               "dictionary (as a document), every UseCMap behaviour and every UMapCache request history (each maximal history in a "
+               "fresh interpreter, through get_unicode_map and through documents, on the CIDs whose horizontal and vertical "
+               "targets differ). B: one trace per distinct composite font of the samples.")
     ck.assumptions = ["contents of the pickled CMaps and collection maps are constants read from the package (DESIGN 1.1)",
                       "abstract byte classes are bound to 2-3 concrete byte choices per real CMap",
                       "resynchronisation after an invalid byte: partial code + offending byte are consumed (see notes/C07.md)",
@@ -963,7 +1052,7 @@ def run(ck):
 
     def add(label, mod, cfg):
         emit = os.path.join(ck.tmp, label + ".ndjson")
-        jobs[label] = (os.path.join(FONT, mod), cfg, emit, quick or label in ("place", "sel", "use"), 4)
+        jobs[label] = (os.path.join(FONT, mod), cfg, emit, quick or label in ("place", "sel", "use", "umap"), 4)
 
     dv = "<- AllDev" if "IdentityOddRaises" in dev else "<- NoDev"
     add("seg", "MC_CIDFont.tla", cfg_with(ck, "MC_CIDFont.cfg", "seg.cfg",
@@ -980,7 +1069,8 @@ def run(ck):
     dsel = "<- AllDev" if "ToUnicodeByCID" in dev else "<- NoDev"
     add("sel", "MC_CIDSelect.tla", cfg_with(ck, "MC_CIDSelect.cfg", "sel.cfg", replace={"Dev <- AllDev": "Dev " + dsel}))
     add("use", "MC_UseCMap.tla", cfg_with(ck, "MC_UseCMap.cfg", "use.cfg"))
-    with ThreadPoolExecutor(5) as tpool, ProcessPoolExecutor(min(16, os.cpu_count() or 4), initializer=quiet) as ppool:
+    add("umap", "MC_UMapCache.tla", cfg_with(ck, "MC_UMapCache.cfg", "umap.cfg"))
+    with ThreadPoolExecutor(8) as tpool, ProcessPoolExecutor(min(16, os.cpu_count() or 4), initializer=quiet) as ppool:
         futs = {k: tpool.submit(tlc_job, j) for k, j in jobs.items()}
 
         def got(k):
@@ -993,6 +1083,7 @@ def run(ck):
         direction_a_placement(ck, got("place"))
         direction_a_selection(ck, got("sel"), ppool)
         direction_a_usecmap(ck, got("use"))
+        direction_a_umap(ck, got("umap"), tpool)
         direction_b(ck, ppool)
     codec_data_check(ck)
     ck.exhaustive = True
@@ -1018,6 +1109,11 @@ def replay(path):
         arr = py_array(case["array"])
         print(arr, "->", get_widths(arr) if case["mode"] == "W" else get_widths2(arr))
         bad = True
+    elif kind == "umap":
+        fnd = umap_history_run(case["history"])
+        for f in fnd:
+            print(f[0], f[1])
+        bad = bool(fnd)
     elif kind == "selection":
         fnd = selection_worker([case["rec"]])[0]
         for f in fnd:
